@@ -121,6 +121,31 @@ func mutexField(c *core.Ctx, rel, typ, name, hint string) *types.Var {
 	return best
 }
 
+// everyCallerGuarded: fn is an extracted step; every static call of it among fns (at least one) stands in a block guarded
+// by the predicate built for the object it is called on (the first argument).
+func everyCallerGuarded(fns []*ssa.Function, fn *ssa.Function, mk func(base ssa.Value) func(cond ssa.Value) int) bool {
+	sites := 0
+	for _, caller := range fns {
+		for _, b := range caller.Blocks {
+			for _, in := range b.Instrs {
+				call, ok := in.(*ssa.Call)
+				if !ok || call.Common().StaticCallee() != fn || caller == fn {
+					continue
+				}
+				sites++
+				var base ssa.Value
+				if len(call.Common().Args) > 0 {
+					base = call.Common().Args[0]
+				}
+				if !guardedBy(b, mk(base)) {
+					return false
+				}
+			}
+		}
+	}
+	return sites > 0
+}
+
 func isAtomicU64(t types.Type) bool {
 	return core.IsNamed(t, "sync/atomic", "Uint64")
 }
@@ -712,7 +737,7 @@ func checkRegistry(c *core.Ctx) {
 						continue
 					}
 					inserts++
-					sentinel := guardedBy(b, func(cond ssa.Value) int {
+					sentinelPred := func(cond ssa.Value) int {
 						bo, ok := cond.(*ssa.BinOp)
 						if !ok || (bo.Op != token.EQL && bo.Op != token.NEQ) {
 							return 0
@@ -730,7 +755,9 @@ func checkRegistry(c *core.Ctx) {
 							return -1 // map == nil → closed; insert must be on the false branch
 						}
 						return 1
-					})
+					}
+					// in the function itself, or – when the insert is an extracted step – at every call of it
+					sentinel := guardedBy(b, sentinelPred) || everyCallerGuarded(moduleFns(c, "internal/wasm"), fn, func(ssa.Value) func(ssa.Value) int { return sentinelPred })
 					taken := guardedBy(b, func(cond ssa.Value) int {
 						// ok of a comma-ok lookup on the registry with the same key
 						ex, ok := cond.(*ssa.Extract)
@@ -1050,52 +1077,62 @@ func checkClosedSentinelMaps(c *core.Ctx) {
 				}
 				n++
 				fname := k.named.Obj().Name() + "." + k.named.Underlying().(*types.Struct).Field(k.field).Name()
-				ok2 := guardedBy(b, func(cond ssa.Value) int {
-					// a one-level predicate method of the same receiver that returns the nil test
-					if call, isCall := cond.(*ssa.Call); isCall {
-						sc := call.Common().StaticCallee()
-						if sc != nil && len(sc.Params) >= 1 && len(call.Common().Args) >= 1 && sameValue(call.Common().Args[0], base) {
-							for _, hb := range sc.Blocks {
-								for _, hin := range hb.Instrs {
-									ret, isRet := hin.(*ssa.Return)
-									if !isRet || len(ret.Results) != 1 {
-										continue
-									}
-									hbo, isB := ret.Results[0].(*ssa.BinOp)
-									if !isB || (hbo.Op != token.NEQ && hbo.Op != token.EQL) {
-										continue
-									}
-									for _, pair := range [][2]ssa.Value{{hbo.X, hbo.Y}, {hbo.Y, hbo.X}} {
-										kk, bb, isF := fieldOf(pair[0])
-										cst, isC := pair[1].(*ssa.Const)
-										if isF && isC && cst.IsNil() && kk == k && bb == sc.Params[0] {
-											if hbo.Op == token.NEQ {
-												return 1
+				mkPred := func(base ssa.Value) func(cond ssa.Value) int {
+					return func(cond ssa.Value) int {
+						// a one-level predicate method of the same receiver that returns the nil test
+						if call, isCall := cond.(*ssa.Call); isCall {
+							sc := call.Common().StaticCallee()
+							if sc != nil && len(sc.Params) >= 1 && len(call.Common().Args) >= 1 && sameValue(call.Common().Args[0], base) {
+								for _, hb := range sc.Blocks {
+									for _, hin := range hb.Instrs {
+										ret, isRet := hin.(*ssa.Return)
+										if !isRet || len(ret.Results) != 1 {
+											continue
+										}
+										hbo, isB := ret.Results[0].(*ssa.BinOp)
+										if !isB || (hbo.Op != token.NEQ && hbo.Op != token.EQL) {
+											continue
+										}
+										for _, pair := range [][2]ssa.Value{{hbo.X, hbo.Y}, {hbo.Y, hbo.X}} {
+											kk, bb, isF := fieldOf(pair[0])
+											cst, isC := pair[1].(*ssa.Const)
+											if isF && isC && cst.IsNil() && kk == k && bb == sc.Params[0] {
+												if hbo.Op == token.NEQ {
+													return 1
+												}
+												return -1
 											}
-											return -1
 										}
 									}
 								}
 							}
+							return 0
 						}
-						return 0
-					}
-					bo, isB := cond.(*ssa.BinOp)
-					if !isB || (bo.Op != token.NEQ && bo.Op != token.EQL) {
-						return 0
-					}
-					for _, pair := range [][2]ssa.Value{{bo.X, bo.Y}, {bo.Y, bo.X}} {
-						kk, bb, isF := fieldOf(pair[0])
-						cst, isC := pair[1].(*ssa.Const)
-						if isF && isC && cst.IsNil() && kk == k && sameValue(bb, base) {
-							if bo.Op == token.NEQ {
-								return 1
+						bo, isB := cond.(*ssa.BinOp)
+						if !isB || (bo.Op != token.NEQ && bo.Op != token.EQL) {
+							return 0
+						}
+						for _, pair := range [][2]ssa.Value{{bo.X, bo.Y}, {bo.Y, bo.X}} {
+							kk, bb, isF := fieldOf(pair[0])
+							cst, isC := pair[1].(*ssa.Const)
+							if isF && isC && cst.IsNil() && kk == k && sameValue(bb, base) {
+								if bo.Op == token.NEQ {
+									return 1
+								}
+								return -1
 							}
-							return -1
 						}
+						return 0
 					}
-					return 0
-				})
+				}
+				ok2 := guardedBy(b, mkPred(base))
+				if !ok2 {
+					// the insert is an extracted step of a function that made the test: every call of it is guarded, for the
+					// object it is called on
+					if _, isParam := base.(*ssa.Parameter); isParam && len(fn.Params) > 0 && base == ssa.Value(fn.Params[0]) {
+						ok2 = everyCallerGuarded(fns, fn, mkPred)
+					}
+				}
 				c.Check(ok2, "R10.7", "insert into "+fname+" in "+core.SSAFuncName(fn)+" is guarded by the closed-sentinel test", mu.Pos(),
 					"dominated by the passed test "+fname+" != nil",
 					fname+" is set to nil by "+closer+" (closing), and this insert is not dominated by a nil test of it: a request that passed the runtime's closed check before the close panics with 'assignment to entry in nil map' instead of failing with an error")
